@@ -1,5 +1,5 @@
 (** * C12 — every resting price is on the tick grid; rejected creations leave no trace *)
-From Bourse Require Import Model.Types Model.Book Model.Obs Spec.RefBook Spec.Monitors Proofs.Grid Proofs.Refine Proofs.Volumes Proofs.LevelsAccount Proofs.RestGrid Proofs.EnvGrid.
+From Bourse Require Import Model.Types Model.Book Model.Obs Spec.RefBook Spec.Monitors Proofs.Grid Proofs.Refine Proofs.Volumes Proofs.LevelsAccount Proofs.RestGrid Proofs.EnvGrid Proofs.MarketInv Proofs.MarketGrid.
 From Bourse Require Import Model.Rng Model.Env.
 
 (** An order can be created iff its limit price is a multiple of the tick size. *)
@@ -38,6 +38,26 @@ Theorem c12_env_market_always : forall e a sd v tr b,
   nth_error (en_market e) a = Some b ->
   exists e', menv_place e a sd v tr None = Ok (e', Created (length (b_orders b))).
 Proof. exact menv_place_market_always. Qed.
+
+(** ... and in every reachable market / environment every asset's book keeps the invariant behind
+    the grid and level-accounting theorems ([RInv], with "no u32 counter overflowed"): through
+    submissions, direct operations, switches, clock moves and whole steps. Hence every asset's
+    published per-level data accounts for all of that asset's resting volume within range. *)
+Theorem c12_env_every_asset_keeps_grid_invariant : forall L e g o e' g' x,
+  MGB (en_market e) -> Forall mev_u32 (en_queue e) -> eop_u32 o -> menv_apply L e g o = Ok (e', g', x) ->
+  MGB (en_market e') /\ Forall mev_u32 (en_queue e').
+Proof. exact menv_apply_gb. Qed.
+
+Theorem c12_env_new_market_on_grid : forall t0 ticks tr m, market_new t0 ticks tr = Ok m -> MGB m.
+Proof. exact market_new_gb. Qed.
+
+Theorem c12_env_levels_account_per_asset : forall L m a b ob,
+  MGB m -> nth_error m a = Some b -> observe L b = Ok ob ->
+  sumfst (ob_bid_levels ob) =
+    sum_vol (filter (fun o => in_levels Bid (b_tick b) L (ob_bid ob) (o_price o)) (resting Bid (ob_orders ob))) /\
+  sumfst (ob_ask_levels ob) =
+    sum_vol (filter (fun o => in_levels Ask (b_tick b) L (ob_ask ob) (o_price o)) (resting Ask (ob_orders ob))).
+Proof. exact mgb_levels_account. Qed.
 
 (** The grid invariant is preserved by every operation of the public API,
     with *arbitrary* creation and modification prices. *)
@@ -121,3 +141,6 @@ Print Assumptions c12_resting_on_grid.
 Print Assumptions c12_env_submission_accepted_iff.
 Print Assumptions c12_env_rejected_no_trace.
 Print Assumptions c12_env_market_always.
+Print Assumptions c12_env_every_asset_keeps_grid_invariant.
+Print Assumptions c12_env_new_market_on_grid.
+Print Assumptions c12_env_levels_account_per_asset.
